@@ -802,6 +802,8 @@ def pbuild(pspec):
                 f = Binary(getattr(ops, nd[1]), built[nd[2]], built[nd[3]])
             elif k == "un":
                 f = Unary(getattr(ops, nd[1]), built[nd[2]])
+            elif k == "pop" and nd[1] == "reshape":
+                f = built[nd[3]].reshape(_tup(nd[2][0]))
             elif k == "pop":
                 f = getattr(ops, nd[1])(built[nd[3]], *[_tup(v) for v in nd[2]])
             elif k == "pbin":
@@ -838,6 +840,7 @@ with {{"reflect": reflect, "lazy": lazy}}[pspec.get("interp", "reflect")]:
         elif k == "num": f = Number(nd[1])
         elif k == "ew": f = Binary(getattr(ops, nd[1]), b[nd[2]], b[nd[3]])
         elif k == "un": f = Unary(getattr(ops, nd[1]), b[nd[2]])
+        elif k == "pop" and nd[1] == "reshape": f = b[nd[3]].reshape(tup(nd[2][0]))
         elif k == "pop": f = getattr(ops, nd[1])(b[nd[3]], *[tup(v) for v in nd[2]])
         elif k == "pbin": f = getattr(ops, nd[1])(b[nd[3]], b[nd[4]], *[tup(v) for v in nd[2]])
         elif k == "slice": f = b[nd[2]][eval(nd[1])]
@@ -943,7 +946,7 @@ def check_pcase(ctx, pspec, use_driver=True, label="param"):
             except Exception:
                 continue
             q = lambda xs: "(" + " ".join('"' + str(x).replace('"', "'") + '"' for x in xs) + ")"
-            reqs.append(f'C18 printop "{type(op).__name__}" {q(op.defaults.keys())} {q(dflt.values())} {q(op.defaults.values())}')
+            reqs.append(f'C18 printop "{type(op).__name__}" {q(op.defaults.keys())} {q([dflt.get(k, "<required>") for k in op.defaults])} {q(op.defaults.values())}')
             real.append((op, _print_op(op)))
         if reqs:
             for a, (op, txt) in zip(ctx.driver.ask(reqs), real):
